@@ -14,8 +14,22 @@ theorem delims_default_per_position (a b c d : Bytes) :
        if c = [] then Delims.default.tl else c, if d = [] then Delims.default.tr else d⟩ := by
   cases a <;> cases b <;> cases c <;> cases d <;> simp [Delims.ofList]
 
-/-- a list that does not have four entries selects the defaults -/
+/-- the empty list selects the defaults (the instance `Delims()` of `delims_wrong_arity`) -/
 theorem delims_wrong_arity_nil : Delims.ofList [] = Delims.default := rfl
+
+/-- **C19 (wrong arity).** EVERY list that does not have exactly four entries — none, one, two,
+    three, five or more — selects the four defaults (`Scan`: `if len(delims) != 4 { delims = defaults }`). -/
+theorem delims_wrong_arity (l : List Bytes) (h : l.length ≠ 4) : Delims.ofList l = Delims.default := by
+  match l, h with
+  | [], _ => rfl
+  | [_], _ => rfl
+  | [_, _], _ => rfl
+  | [_, _, _], _ => rfl
+  | [_, _, _, _], h => exact absurd rfl h
+  | _ :: _ :: _ :: _ :: _ :: _, _ => rfl
+
+example : Delims.ofList [[60], [62], [91]] = Delims.default := delims_wrong_arity _ (by decide)
+example : Delims.ofList [[60], [62], [91], [93], [33]] = Delims.default := delims_wrong_arity _ (by decide)
 
 /-- the delimiters actually used are never empty -/
 theorem delims_nonempty (l : List Bytes) :
